@@ -15,7 +15,13 @@ func ByName(a, b string) bool {
 func ByNameSmart(a, b string) bool {
 	v0, err0 := strconv.ParseFloat(a, 64)
 	v1, err1 := strconv.ParseFloat(b, 64)
-	if err0 == nil && err1 == nil {
+	// Numbers (NaN excluded) sort before text, then by value; ties and text by bytes
+	n0 := err0 == nil && v0 == v0
+	n1 := err1 == nil && v1 == v1
+	if n0 != n1 {
+		return n0
+	}
+	if n0 && v0 != v1 {
 		return v0 < v1
 	}
 	return a < b
